@@ -387,7 +387,7 @@ where
                     Self::IsOdd => int_stack
                         .top()
                         .map_err(PushInstructionError::from)
-                        .map(|&x| x % 2 == 1)
+                        .map(|&x| x % 2 != 0)
                         .push_onto(state)
                         .with_stack_discard::<i64>(1),
 
